@@ -312,7 +312,7 @@ def run_lines(cmd_prefix, cases, timeout_s=10, extra_env=None):
         try:
             p = subprocess.run(cmd + [path], stdout=subprocess.PIPE, stderr=subprocess.PIPE,
                                env=dict(os.environ, **(extra_env or {})),
-                               timeout=max(60, timeout_s * 4 + len(cases) * 0.5))
+                               timeout=max(900, timeout_s * 4 + len(cases) * 2))
             out = p.stdout.decode("utf-8", "replace").split("\n")
             rc = p.returncode
         except subprocess.TimeoutExpired as e:
